@@ -83,11 +83,22 @@ def generate_case(rng_world, rng_swarm, rng_sched, profile, tier="quick"):
     # object and can repair or hide lazily maintained state: how often the clients look is
     # part of the schedule.  The dump is always compared; everything is read at the end.
     observe_rate = rng_swarm.choice([1.0, 1.0, 0.5, 0.15, 0.0])
+    tok_rate = rng_swarm.choice([0.0, 0.0, 0.1, 0.4])
+    # key objects handed out by the library itself (iteration of a paragraph) used as keys
+    iterkey_rate = rng_swarm.choice([0.0, 0.0, 0.15, 0.5])
+    # a client that repeats one call many times (a loop, a retry)
+    rep_rate = rng_swarm.choice([0.0, 0.0, 0.03, 0.1])
     for _ in range(nsteps):
         k = rng_sched.choice(kinds)
         pi = rng_sched.randrange(max(npar, 1))
-        st = {"op": k, "p": pi, "via": rng_sched.choice(["held", "held", "fresh", "view"]),
+        st = {"op": k, "p": pi,
+              "via": rng_sched.choice(["held", "held", "fresh", "view"] +
+                                      ([] if dup else ["view_strict"])),
               "observe": rng_sched.random() < observe_rate}
+        if profile == "C05" and k in ("set", "del", "get") and rng_sched.random() < tok_rate:
+            # the third documented kind of key: the field's name token, taken now or kept
+            # from an earlier step (then it belongs to an element that may be gone)
+            st["tok"] = rng_sched.choice(["fresh", "held", "held"])
         if k in ("set", "del", "get") or k in ORDER_OPS:
             st["key"] = gen_key(rng_sched, doc, pi % max(len(doc.paras), 1))
             dupc = pi < len(doc.paras) and is_dup(doc.paras[pi])
@@ -105,7 +116,14 @@ def generate_case(rng_world, rng_swarm, rng_sched, profile, tier="quick"):
             st["build"] = rng_sched.choice(["setitem", "from_dict"])
             st["at"] = rng_sched.choice([0, 0, 1, 2, 9])
             npar += 1
+        if "key" in st and "tok" not in st and rng_sched.random() < iterkey_rate:
+            st["keysrc"] = "iter"
+        if k in ("append", "insert") and rng_sched.random() < iterkey_rate:
+            st["keysrc"] = "iter"
         steps.append(st)
+        if k not in ("append", "insert", "gc", "drop_held") and rng_sched.random() < rep_rate:
+            for _ in range(rng_sched.choice([1, 2, 5, 20, 60, 60, 90])):
+                steps.append(dict(st, rep=True))
         if k == "set" and rng_sched.random() < 0.12:
             # the same assignment once more, on another (or the same) paragraph
             again = dict(st)
@@ -183,6 +201,7 @@ class Run(object):
         self.log = log
         self.doc = Doc.from_json(case["world"]["doc"])
         self.dupfile = bool(case["world"].get("dup"))
+        self.tokens = {}
         text = self.doc.text()
         self.file = parse(text, dup=True)
         self.dupclass = [is_dup(p) for p in self.doc.paras]
@@ -213,19 +232,43 @@ class Run(object):
             p = self.held[pi]
         if via == "view":
             return p.configured_view()
+        if via == "view_strict":
+            # the view that does not guess between repeated fields; this paragraph has none
+            if self.dupfile or any(self.dupclass):
+                return p.configured_view()
+            self.out.probe("view_without_auto_resolve")
+            return p.configured_view(auto_resolve_ambiguous_fields=False)
         return p
+
+    def sut_key(self, name):
+        """The first key object the library itself hands out (iterating the paragraphs in
+        document order) that names this field, whatever its case."""
+        for p in self.file:
+            for k in p:
+                if str(k).lower() == name.lower():
+                    return k
+        return None
 
     def set_call(self, h, pi, k, val, route):
         """p[k] = v, or the same assignment through the paragraph's set_field_* methods
         (only for values those methods take as they are)."""
-        if route == "simple" and "\n" not in val and val == val.strip():
+        if route == "simple" and "\n" not in val:
             para = self.handle(pi, "held")
             self.out.probe("set_through_set_field_methods")
-            return lambda: para.set_field_to_simple_value(k, val)
-        if route == "raw" and "\n" not in val and val == val.strip():
+            return lambda: para.set_field_to_simple_value(k, val.strip())
+        if route == "raw":
+            # what the dict interface documents it does with the value, done by the caller
             para = self.handle(pi, "held")
             self.out.probe("set_through_set_field_methods")
-            return lambda: para.set_field_from_raw_string(k, " " + val + "\n")
+            if "\n" in val:
+                first, rest = val.split("\n", 1)
+                raw = " " + first.strip() + "\n" + rest
+                self.out.probe("multi_line_value_through_set_field_from_raw_string")
+            else:
+                raw = " " + val.strip()
+            if not raw.endswith("\n"):
+                raw += "\n"
+            return lambda: para.set_field_from_raw_string(k, raw)
         return lambda: h.__setitem__(k, val)
 
     # -- whole-document checks
@@ -339,6 +382,28 @@ class Run(object):
         h = self.handle(pi, st.get("via", "held"))
         key, idx = st.get("key"), st.get("idx")
         k = key if idx is None else (key, idx)
+        if st.get("keysrc") == "iter":
+            obj = self.sut_key(key)
+            if obj is not None:
+                out.probe("key_object_taken_from_iteration")
+                key = str(obj)
+                k = obj if idx is None else (obj, idx)
+        if st.get("rep"):
+            out.probe("same_call_repeated")
+        if st.get("tok") and idx is None and not dupc and not self.dupfile:
+            elem = self.handle(pi, "held").get_kvpair_element(key, use_get=True)
+            tok = elem.field_token if elem is not None else None
+            if st["tok"] == "held":
+                tok = self.tokens.setdefault((pi, key.lower()), tok)
+                if tok is None:
+                    del self.tokens[(pi, key.lower())]
+            if tok is not None:
+                if elem is None or tok is not elem.field_token:
+                    out.probe("name_token_of_a_replaced_or_deleted_field_as_key")
+                else:
+                    out.probe("name_token_as_key")
+                k = tok
+                key = str(tok.text)
         before = self.doc.copy()
         before_dump = self.file.dump()
         last_unterminated = not before_dump.endswith("\n") and before_dump != ""
@@ -534,6 +599,12 @@ class Run(object):
         fields = st["fields"]
         d = {}
         for k, v in fields:
+            if st.get("keysrc") == "iter":
+                obj = self.sut_key(k)
+                if obj is not None:
+                    out.probe("key_object_taken_from_iteration")
+                    d[obj] = v
+                    continue
             d[k] = v
         if st.get("build") == "from_dict":
             newp = Deb822ParagraphElement.from_dict(d)
@@ -553,7 +624,7 @@ class Run(object):
                 n += 1
             ftext, rest = "".join(lines[:n]), "".join(lines[n:])
             mp = mini_parse_field(ftext)
-            if mp is None or mp[0] != k or norm_value(mp[1]) != norm_assigned(v) or \
+            if mp is None or mp[0] != str(k) or norm_value(mp[1]) != norm_assigned(v) or \
                     not ftext.endswith("\n"):
                 raise Violation("new-paragraph-text-is-not-its-fields", op,
                                 {"step": si, "text": ptext, "fields": fields})
